@@ -9,7 +9,9 @@ touched nothing lazy; the driver enumerates the reachable control states of ever
 group and emits one shortest history per (state, event); plus directed and random long histories
 across groups (reads / hasattr through element, isotope, ion, isotope ion; imports; calculator
 calls; explicit init of the public table; calculator calls at several scalar wavelengths on the lazily attached
-energy-dependent tables; pickles of served objects taken and loaded under different first-touch orders).  Every event's served value and a final digest of all
+energy-dependent tables; pickles of served objects taken and loaded under different first-touch orders;
+calculator calls and computed reads of the lazily read per-atom x-ray tables, the activation table and the f0 table,
+each of them as the first touch of the process followed by the others).  Every event's served value and a final digest of all
 lazy attributes of the probe atoms are compared with the model (value tokens one-to-one with
 digests) and – by the oracle – with the canonical values of a pristine child.
 """
@@ -17,7 +19,8 @@ from __future__ import annotations
 
 from ..common import Run, InfraError, import_repo
 from ..state_hist import LAZY_ATTRS
-from ..state_lazy import Lab, PROBES, CALCS, WL_CALCS, PICKLE_ATTRS, PICKLE_KEYS, oracle, compare, init_group, group_of
+from ..state_lazy import (Lab, PROBES, CALCS, WL_CALCS, PICKLE_ATTRS, PICKLE_KEYS, ORDER_CALCS, ORDER_ATTR, oracle, compare,
+                          init_group, group_of, ocalc_event)
 
 RULE = ("one case = one history (sequence of first-touch events) run in a fresh forked interpreter; "
         "non-trivial when it contains an event other than a plain read through an element, or at "
@@ -63,6 +66,37 @@ def wavelength_histories(rng):
                     hs.append([ev(a), ev(b)])
     for _ in range(10):
         hs.append([ev(rng.choice(WL_CALCS)) for _ in range(rng.randint(3, 6))])
+    return hs
+
+
+def order_histories(lab, rng):
+    """calculator calls and computed reads on lazily loaded data that is read per atom or per table at first use
+    (the .nff scattering-factor tables through the neutron pseudo-element, an element, an ion, an isotope and the
+    compound calculator; the activation calculator on explicit isotopes; f0 of the bare proton and of other atoms):
+    every member of a family is put FIRST in a fresh process, followed by the others; every ordered pair of a
+    family; every member after an attribute read / hasattr / import / explicit init that loads the group; and
+    random mixes across families and with the other public events.  Each value is judged against the one a
+    pristine process that does nothing else computes."""
+    hs = []
+    allc = [c for fam in ORDER_CALCS.values() for c in fam]
+    for name, fam in ORDER_CALCS.items():
+        attr = ORDER_ATTR[name]
+        gi = group_of(lab, attr)
+        inits = [n for n in lab.cfg["inits"] if init_group(lab, n) == gi]
+        for a in fam:
+            rest = [c for c in fam if c != a]
+            rng.shuffle(rest)
+            hs.append([ocalc_event(a)] + [ocalc_event(c) for c in rest] + [ocalc_event(a)])
+            for b in fam:
+                if b != a:
+                    hs.append([ocalc_event(a), ocalc_event(b)])
+            pres = [("read", "public", (27, 59, 0), attr), ("has", "public", (26, 0, 0), attr),
+                    ("read", "public", (0, 0, 0), attr), ("import", PICKLE_ATTRS[attr])] + [("init", n, "public") for n in inits]
+            for p in pres:
+                hs.append([p, ocalc_event(a)])
+    for _ in range(30):
+        hs.append([ocalc_event(rng.choice(allc)) if rng.random() < 0.6 else public_events(lab, rng)
+                   for _ in range(rng.randint(3, 10))])
     return hs
 
 
@@ -179,6 +213,7 @@ def run(run: Run) -> int:
         execute(run, lab, CORPUS, "lazy-corpus", "corpus")
         execute(run, lab, FIRST_TOUCH, "lazy-first-touch", "first-touch")
         execute(run, lab, wavelength_histories(run.rng), "lazy-wavelengths", "wavelengths")
+        execute(run, lab, order_histories(lab, run.rng), "lazy-order", "order")
         dump_hs, load_hs = pickled_value_histories(run, lab, run.rng)
         execute(run, lab, load_hs(execute(run, lab, dump_hs, "lazy-pickled", "pickled:dumps")), "lazy-pickled", "pickled:loads")
         total_states = 0
